@@ -278,9 +278,9 @@ func VH_C02() {
 	defer func() { c02Buckets, c02Single = saveB, saveS }()
 	switch kind {
 	case kindFsMulti:
-		keys = []string{"d/x", "d/y"} // a file and a directory of the same name cannot coexist on a file system
+		keys = []string{"d/x", "d/e/y"} // a file and a directory of the same name cannot coexist on a file system
 	case kindFsSingle:
-		keys = []string{"d/x", "d/y"}
+		keys = []string{"d/x", "d/e/y"}
 		c02Buckets = []string{"bkt", "zzz"}
 		c02Single = true
 		m.buckets["bkt"] = map[string][]byte{}
